@@ -359,8 +359,14 @@ def run_workload(w):
         tokens = [CounterToken(f"v{i}", _P(wd) / "_tokens" / f"t{i}", n) if kinds[i] == "file" else ProcessCounterToken(n)
                   for i, n in enumerate(w["tokens"])]
         filetokens[:] = [t for t in tokens if isinstance(t, CounterToken)]
+        # the directory watcher is taken off at once: this run is the only user of the token, and a late event
+        # about the scheduler's own files (a delete event that arrives after the same job has taken the token
+        # again) changes the count at a moment no schedule records - file events are C08/C09's ground
+        for t in filetokens:
+            ipcom().fsunwatch(t.watcher)
         tokidx = {id(t): i for i, t in enumerate(tokens)}
         values, objs = [None] * njobs, [None] * njobs
+        depobjs = {}
         wait = dict(status="none", thread=None, final=False)
         nxt = 0
 
@@ -386,8 +392,14 @@ def run_workload(w):
                 ctl.jobs[j] = None
                 return False
             cfg, init = build_config(ctl, w, j, values, objs)
-            for (t, c) in spec["toks"]:
-                cfg.add_dependencies(tokens[t].dependency(c))
+            root = spec.get("copy_of")
+            if spec.get("reuse") and root is not None and depobjs.get(root) is not None:
+                mine = depobjs[root]          # the Dependency objects of the first submission, used again
+            else:
+                mine = [tokens[t].dependency(c) for (t, c) in spec["toks"]]
+            depobjs[j] = mine
+            for d in mine:
+                cfg.add_dependencies(d)
             ctl.plan = dict(index=j, code=spec["code"], marker=spec.get("marker", False), adopt=spec.get("adopt"))
             objs[j] = cfg
             trace["falsy"][j] = not bool(cfg)     # a task object whose truth value is False (__len__ == 0)
@@ -506,10 +518,5 @@ def run_workload(w):
     except BaseException as e:  # noqa
         trace["error"] = "exception: " + "".join(traceback.format_exception(type(e), e, e.__traceback__))[-1500:]
     finally:
-        for t in filetokens:
-            try:
-                ipcom().fsunwatch(t.watcher)
-            except Exception:  # noqa
-                pass
         shutil.rmtree(wd, ignore_errors=True)
     return trace
